@@ -82,7 +82,7 @@ func runSetRace(c SetRaceCase) (res common.Result) {
 		}
 		ctl.Run(c.Choices, nil)
 		if stuck, dump := ctl.Finish(5 * time.Second); len(stuck) > 0 {
-			res.Fail = common.Failf("deadlock", "setters %v never returned:\n%s", stuck, StackOf(dump, "raft-wal"))
+			res.Fail = common.Failf("deadlock", "setters %v are parked for good:\n%s", stuck, ctl.WorkerStacks(dump, stuck))
 			return
 		}
 		wal.SetVerifHook(nil)
